@@ -21,7 +21,7 @@ ALT_RX0 = b"\x5C\x0F\xF1\xCE\x77"  # what a sender listens to on pipe 0 when it 
 PRE_OPS = ("tx_rx0", "tx_toggle", "tx_reenter", "rx_toggle", "rx_reenter", "tx_reopen_short")
 
 
-def configure(obj, kind, case):
+def configure(obj, kind, case, side="tx"):
     """apply the common link configuration through the public API"""
     obj.channel = case["channel"]
     obj.data_rate = case["rate"]
@@ -39,7 +39,24 @@ def configure(obj, kind, case):
             obj.dynamic_payloads = True
         else:
             obj.dynamic_payloads = False
-            obj.payload_length = static
+            style = case.get("pl_style", "all")
+            if style == "all":
+                obj.payload_length = static
+            else:
+                # per-pipe static lengths that differ; the pipe the traffic uses (and pipe 0, whose
+                # length the transmitting side pads to, and pipe 1 for ping-pong replies) gets the common length
+                other = case.get("pl_other", [7, 13, 21, 32, 1, 9])
+                common = {0, 1, case["pipe"]}
+                if side == "rx" and not case.get("pingpong") and case["pipe"] != 0:
+                    common = {case["pipe"]}  # a pure receiver: pipe 0's length is its own business
+                lens = [static if i in common else (other[i] if other[i] != static else other[i] % 32 + 1)
+                        for i in range(6)]
+                if style == "list":
+                    obj.payload_length = lens
+                else:
+                    order = list(range(6)) if style == "asc" else list(range(5, -1, -1))
+                    for i in order:
+                        obj.set_payload_length(lens[i], i)
     else:
         if static is None:
             obj.dynamic_payloads = True
@@ -92,7 +109,7 @@ class Pair:
         self.tx = self.rig.driver(self.rt, cls=cls_of(tx_kind), flavour=tfl)
         self.rx = self.rig.driver(self.rr, cls=cls_of(rx_kind), flavour=rfl)
         configure(self.tx, tx_kind, case)
-        configure(self.rx, rx_kind, case)
+        configure(self.rx, rx_kind, case, "rx")
         for i in range(6):
             self.rx.open_rx_pipe(i, PIPE_ADDRS[i])
         if case.get("pingpong"):
